@@ -95,6 +95,7 @@ inductive Event where
   | chTooLong (c : Nat)
   | apiRestore (p q : Int)   -- `restoreAccessHash`: a getDifference only to learn a channel's access hash
   | storeSeq (v : Int)       -- `SetSeq` (`applySeq`, `applyCombined` of a container with a seq)
+  | inaccessible (c : Nat)   -- `OnChannelInaccessible`: the channel's difference answered CHANNEL_PRIVATE
   deriving DecidableEq, Repr
 
 /-! ### The fake server (harness/c02/mgr/world.go) -/
@@ -125,6 +126,8 @@ structure World where
   cr : List (Nat × Int) := []
   /-- the server's `seq` (number of the last container it has sent, delivered or not) -/
   seqNow : Nat := 0
+  /-- channels the account cannot access right now: their difference answers CHANNEL_PRIVATE -/
+  priv : List Nat := []
   deriving Repr
 
 def World.happened (w : World) : List Entry := w.log.take w.emitted
@@ -182,6 +185,7 @@ def World.commonDiff (w : World) (pts qts : Int) : World × DiffAns :=
 
 inductive ChDiffAns where
   | error
+  | priv             -- CHANNEL_PRIVATE: the channel has become inaccessible
   | tooLong (p : Int)
   | empty (p : Int)
   | diff (msgs others : List Entry) (p : Int) (final : Bool)
@@ -190,6 +194,7 @@ inductive ChDiffAns where
 /-- `World.channelDifference`. -/
 def World.chanDiff (w : World) (c : Nat) (pts : Int) : World × ChDiffAns :=
   if w.failNext.contains (2 + c) then ({ w with failNext := w.failNext.filter (· != 2 + c) }, .error)
+  else if w.priv.contains c then (w, .priv)
   else if w.chTooLong.contains c then ({ w with chTooLong := w.chTooLong.filter (· != c) }, .tooLong (w.serverChan c))
   else
     let cand := w.happened.filter fun e => e.seqKey == some (2 + c) && decide (e.pos > pts)
@@ -326,7 +331,21 @@ def Mgr.hasChan (m : Mgr) (c : Nat) : Bool := m.chans.any (·.id == c)
 def Mgr.addChan (m : Mgr) (c : Nat) (pts : Int) : Mgr :=
   { m with chans := m.chans ++ [{ id := c, box := { state := pts } }] }
 
-/-- `internalState.handleChannel` for a channel that is not tracked yet. -/
+/-- `delete(s.channels, id)`: the channel's worker has stopped because the channel is inaccessible. -/
+def Mgr.removeChan (m : Mgr) (c : Nat) : Mgr := { m with chans := m.chans.filter (·.id != c) }
+
+/-- The last channel pts written for `c` in a trace (`v0` if none). -/
+def lastStoreChan (c : Nat) (v0 : Option Int) : List Event → Option Int
+  | [] => v0
+  | .storeChan c' v :: r => lastStoreChan c (if c' = c then some v else v0) r
+  | _ :: r => lastStoreChan c v0 r
+
+/-- (Re)start a worker for channel `c` at `v`. -/
+def Mgr.recreate (m : Mgr) (c : Nat) (v : Int) : Mgr := (m.addChan c v).logOp (2 + c) .reset
+
+/-- `internalState.handleChannel` for a channel that has no worker (never met, or removed after it
+became inaccessible). `storage.GetChannelPts` finds what was written last during this run, else
+what the storage held when the manager started. -/
 def Mgr.firstContact (O : Orders) (m : Mgr) (e : Entry) : Mgr :=
   let c := e.chan
   if m.w.hashUnknown c then
@@ -336,17 +355,22 @@ def Mgr.firstContact (O : Orders) (m : Mgr) (e : Entry) : Mgr :=
     match m.w.persisted.find? (·.1 == c) with
     | some sp =>
       -- the storage knows the channel: the worker starts from the stored pts, nothing is written
-      ((m.addChan c sp.2).pushChan c .subscribe).pushChan c (.upd e)
+      (((m.recreate c ((lastStoreChan c (some sp.2) m.trace).getD sp.2)).pushChan c .subscribe)).pushChan c (.upd e)
     | none =>
       match m.w.cr.find? (·.1 == c) with
       | none => { m with bad := true }
       | some d =>
-        if d.2 = e.pos - e.count then
-          -- localPts = pts − ptsCount; the initial SetChannelPts; a worker starting there
-          let m := m.addChan c d.2
-          let m := m.seqOp O (2 + c) (.seq storeOnlyShape (if O.creationStoresLocal then d.2 else e.pos) [])
-          (m.pushChan c .subscribe).pushChan c (.upd e)
-        else { m with bad := true }
+        match lastStoreChan c none m.trace with
+        | some v =>
+          -- met before during this run (and removed since): the storage has what was written then
+          ((m.recreate c v).pushChan c .subscribe).pushChan c (.upd e)
+        | none =>
+          if d.2 = e.pos - e.count then
+            -- localPts = pts − ptsCount; the initial SetChannelPts; a worker starting there
+            let m := m.recreate c d.2
+            let m := m.seqOp O (2 + c) (.seq storeOnlyShape (if O.creationStoresLocal then d.2 else e.pos) [])
+            (m.pushChan c .subscribe).pushChan c (.upd e)
+          else { m with bad := true }
 
 /-- Routing of one update of a container (`applyCombined`'s loop body). -/
 def Mgr.route (O : Orders) (m : Mgr) (e : Entry) : Mgr :=
@@ -492,6 +516,9 @@ def Mgr.chGetDifference (O : Orders) (c : Nat) : Nat → Mgr → Mgr
     match st.2 with
     | none => m
     | some .error => m   -- a transient error is logged; the worker goes on
+    | some .priv =>
+      -- `handleInaccessible`: the callback, the main loop is told to forget the channel, the worker stops
+      (m.emit [.inaccessible c]).removeChan c
     | some (.tooLong p) => m.seqOp O (2 + c) (.seq (seqCalls .storeChannelPts .boxSetPts [] O.chDiffTooLong) p [])
     | some (.empty p) => m.seqOp O (2 + c) (.seq (seqCalls .storeChannelPts .boxSetPts [] O.chDiffEmpty) p [])
     | some (.diff msgs others p final) =>
@@ -558,6 +585,7 @@ inductive Action where
   | pushSeq (a b : Nat) (ids : List Nat)  -- a container numbered `seq_start = a .. seq = b` arrives
   | emitSeq (n : Nat)                  -- the server's seq has reached `n` (containers that never arrive)
   | knowUsers (ids : List Nat)         -- the client learns the access hashes of these users
+  | setPriv (c : Nat) (on : Bool)      -- the channel becomes inaccessible / accessible again
   deriving Repr
 
 def Mgr.act (O : Orders) (m : Mgr) : Action → Mgr
@@ -610,6 +638,7 @@ def Mgr.act (O : Orders) (m : Mgr) : Action → Mgr
     if es.isEmpty then m else m.handleContainer O es a b
   | .emitSeq n => { m with w := { m.w with seqNow := max m.w.seqNow n } }
   | .knowUsers ids => { m with users := m.users ++ ids }
+  | .setPriv c on => { m with w := { m.w with priv := if on then c :: m.w.priv else m.w.priv.filter (· != c) } }
 
 /-- `Manager.Run` from a persisted state: startup differences, then the actions, each followed
 by quiescence. -/
